@@ -173,6 +173,110 @@ def stage_kp(ctx, drv):
     return True
 
 
+def plan_handles(ctx, sets, npairs, nrandom):
+    out = os.path.join(ctx.scratch, "handles.ndjson")
+    r = ctx.tlc("Plan_KeysetIO", env=dict(VERIF_HANDLES=out, VERIF_SETS=sets, VERIF_PAIRS=npairs, VERIF_RANDOM=nrandom), workers=1,
+                timeout=900, heap="3g", extra=("-seed", str(ctx.seed)))
+    if not r.ok or not os.path.exists(out):
+        raise vlib.Infra("Plan_KeysetIO failed: %s" % (r.error or r.out[-1500:]))
+    n = sum(1 for x in open(out) if x.strip())
+    ctx.stage("R:Plan_KeysetIO", handles=n, sets=sets)
+    return out, n
+
+
+def io_signature(m):
+    e = m["event"]
+    b = m["bad"]
+    return "keysetio/%s %s%s" % (e["ev"], b[0], (" [%s]" % b[1]) if len(b) > 1 and e["ev"] == "io" else "")
+
+
+def slim_io(e):
+    e = dict(e)
+    if "reads" in e:
+        e["reads"] = [r for r in e["reads"] if r["ok"]][:4]
+    return e
+
+
+def corrupt_io(ev, rng):
+    ev = json.loads(json.dumps(ev))
+    if ev["ev"] == "handle":
+        if not ev["built"] or not ev["proj"]:
+            return None
+        k = rng.randrange(len(ev["proj"]))
+        c = rng.randrange(3)
+        if c == 0:
+            ev["proj"][k]["primary"] = not ev["proj"][k]["primary"]
+            ev["_corrupted"] = "proj.primary"
+        elif c == 1:
+            ev["proj"][k]["status"] = "DISABLED" if ev["proj"][k]["status"] != "DISABLED" else "ENABLED"
+            ev["_corrupted"] = "proj.status"
+        else:
+            ev["proj"][k]["id"] = "0badc0de"
+            ev["_corrupted"] = "proj.id"
+        return ev
+    if not ev["wok"]:
+        return None
+    match = [r for r in ev["reads"] if r["ok"] and r["f"] == ev["w"]["f"] and r["m"] == ev["w"]["m"] and r["kek"] == ev["w"]["kek"]]
+    if not match:
+        return None
+    r = match[0]
+    c = rng.randrange(3)
+    if c == 0:
+        r["ok"] = False
+        ev["_corrupted"] = "reads.ok"
+    elif c == 1:
+        r["proj"][0]["id"] = "0badc0de"
+        ev["_corrupted"] = "reads.proj.id"
+    else:
+        bad = [x for x in ev["reads"] if not x["ok"] and x["m"] == "encrypted" and ev["w"]["m"] == "encrypted" and x["f"] == ev["w"]["f"]]
+        if not bad:
+            return None
+        bad[0]["ok"] = True
+        bad[0]["proj"] = r["proj"]
+        ev["_corrupted"] = "reads(wrong kek/ad).ok"
+    return ev
+
+
+def stage_io(ctx, drv):
+    """keyset handles through every writer x reader pair (KeysetIO.tla)."""
+    if ctx.replay:
+        obj = json.load(open(ctx.replay))
+        if obj.get("event", {}).get("ev") not in ("handle", "io"):
+            return False
+        tr = os.path.join(ctx.scratch, "replay-io.ndjson")
+        ctx.run([drv, "-mode", "io", "-replay", ctx.replay, "-out", tr])
+        mism, n = ctx.validate_events("Trace_KeysetIO", tr, shards=1)
+        handle_mismatches(ctx, mism, lambda m: "replay", slim_io)
+        return True
+    if ctx.thorough:
+        ctx.model_check("MC_KeysetIO", "MC_KeysetIO", stage="M:KeysetIO ids 0..2, <=2 keys, 2 prefixes, 5 materials, 2 keks, 3 ads")
+    ctx.model_check("MC_KeysetIO", "MC_KeysetIO_quick", stage="M:KeysetIO ids 0..1, <=2 keys, 5 materials, 2 keks, 3 ads")
+    hp, nh = plan_handles(ctx, "singles,pairs,mats,random", 100000 if ctx.thorough else 60, 1500 if ctx.thorough else 60)
+    tr = os.path.join(ctx.scratch, "io.ndjson")
+    r = ctx.run([drv, "-mode", "io", "-handles", hp, "-out", tr], timeout=2400)
+    ctx.log("driver: %d handles x 16 writers x 16 readers executed in %.1fs" % (nh, r.wall))
+    mism, n = ctx.validate_events("Trace_KeysetIO", tr, shards=16, stage="T:keyset writer x reader matrix")
+    handle_mismatches(ctx, mism, io_signature, slim_io)
+    ctx.cov["traces_validated_against_impl"] += nh
+    nreads = ninter = 0
+    lines = open(tr).read().splitlines()
+    for x in lines:
+        e = json.loads(x)
+        if e["ev"] == "io":
+            nreads += len(e["reads"])
+            ninter += e["interop"]["ab"] == "ok"
+    ctx.stage("R:keyset writer x reader matrix", handles=nh, reads=nreads, interoperability_checks=ninter)
+    ctx.sample(slim_io(json.loads(lines[len(lines) // 2])))
+    bad_n = {m["event"]["n"] for m in mism}
+    clean = os.path.join(ctx.scratch, "io-clean.ndjson")
+    with open(clean, "w") as f:
+        for x in lines:
+            if json.loads(x)["n"] not in bad_n:
+                f.write(x + "\n")
+    ctx.negative_control("Trace_KeysetIO", clean, corrupt_io, window=40, stage="NC:Trace_KeysetIO")
+    return True
+
+
 def run(ctx):
     ctx.cov["rule"] = ("(R) TLC (Plan_KeyParams over KeyParams.tla) enumerates every parameter record of 29 parameter families: "
                        "the full dependent product of all documented values (closed ranges completely, open-ended ones over "
@@ -184,7 +288,15 @@ def run(ctx):
     ctx.assumptions += ["key material is sampled by class (random, all-zero, leading zero, extreme ids), not enumerated",
                         "ParamsOK / Representable are coverage expectations: a mismatch stops the run with exit 2"]
     drv = ctx.go_build("c12")
-    stage_kp(ctx, drv)
+    only = os.environ.get("VERIF_C12_STAGES", "kp,io").split(",")   # development aid
+    if ctx.replay:
+        if not (stage_kp(ctx, drv) or stage_io(ctx, drv)):
+            raise vlib.Infra("replay file has no event of this check")
+        return
+    if "kp" in only:
+        stage_kp(ctx, drv)
+    if "io" in only:
+        stage_io(ctx, drv)
 
 
 MANIFEST = dict(
